@@ -21,7 +21,7 @@ import (
 	"github.com/flamego/flamego/verifharness/internal/rt"
 )
 
-const rule = "case = a valid route set in which a random subset of routes gets Headers(...) 1..3 times with 0..2 pairs each (the last call is the truth), routes registered through Get / Route / Routes(\"GET,POST\") / Routes(\"get, Post\") / Routes(path, \"GET\", \"POST\") / Any / Get while AutoHead is on (GET and HEAD), incl. fully static and optional routes; requests built from route instances (both forms, every method) with random header sets (absent, empty, matching, non-matching, 4..9 KB long with a verdict that hinges on the last byte, the spelling of an expression as the value, other case of the name in the constraint, repeated fields whose values agree on the verdict under every reading, pairs of requests that cut one comma-separated list differently between two constrained headers, requests without a header map); optionally Headers() calls after all requests have been served once, and everything again. " +
+const rule = "case = a valid route set in which a random subset of routes gets Headers(...) 1..3 times with 0..2 pairs each (the last call is the truth), routes registered through Get / Route / Routes(\"GET,POST\") / Routes(\"get, Post\") / Routes(path, \"GET\", \"POST\") / Any / Get while AutoHead is on (GET and HEAD) / Routes(\"GET,POST\") while AutoHead is on (whether HEAD is answered is open; if it is, under the same constraints), incl. fully static and optional routes; requests built from route instances (both forms, every method) with random header sets (absent, empty, matching, non-matching, 4..9 KB long with a verdict that hinges on the last byte, the spelling of an expression as the value, other case of the name in the constraint, repeated fields whose values agree on the verdict under every reading, pairs of requests that cut one list (comma-separated, or one string without any separator) differently between two constrained headers, requests without a header map); optionally Headers() calls after all requests have been served once, and everything again. " +
 	"Oracle: reference matcher with the gate 'every constrained header has a non-empty value matched by its expression' applied to both forms and all methods of the route; the handler that ran (or not-found) must be the reference winner. " +
 	"non-trivial = a case with a request whose path is admitted by a constrained route whose constraints fail (so another route or not-found must take it), or that reaches a constrained route through its short form, a non-first method or a fully static path; distinct by case text"
 
@@ -46,12 +46,22 @@ func (h HReg) methods() []string {
 		return []string{"GET", "HEAD"}
 	case strings.HasPrefix(h.Via, "route:"):
 		return model.ExpandMethod(strings.TrimPrefix(h.Via, "route:"))
-	case h.Via == "routes-list", h.Via == "routes-args", h.Via == "routes-lower":
+	case h.Via == "routes-list", h.Via == "routes-args", h.Via == "routes-lower", h.Via == "autohead-routes":
 		return []string{"GET", "POST"}
 	case h.Via == "any":
 		return model.Methods
 	}
 	panic("harness: via " + h.Via)
+}
+
+// reqMethods are the methods requests are made with (and that the route
+// occupies for the purposes of validity): Routes("GET,POST") while AutoHead is
+// on may or may not answer HEAD as well - if it does, under the same constraints.
+func (h HReg) reqMethods() []string {
+	if h.Via == "autohead-routes" {
+		return append(h.methods(), "HEAD")
+	}
+	return h.methods()
 }
 
 type Case struct {
@@ -70,11 +80,15 @@ type LateHeaders struct {
 	H []string `json:"pairs"`
 }
 
-func compile(c Case, method string) []model.MRoute {
+func compile(c Case, method string, headTwins bool) []model.MRoute {
 	var out []model.MRoute
 	for i, g := range c.Regs {
 		on := false
-		for _, m := range g.methods() {
+		ms := g.methods()
+		if headTwins {
+			ms = g.reqMethods()
+		}
+		for _, m := range ms {
 			if m == method {
 				on = true
 			}
@@ -133,6 +147,10 @@ func checkCase(c Case) (out evid.Outcome) {
 				r = f.Route(strings.TrimPrefix(g.Via, "route:"), g.R, []flamego.Handler{h})
 			case g.Via == "routes-list":
 				r = f.Routes(g.R, "GET,POST", h)
+			case g.Via == "autohead-routes":
+				f.AutoHead(true)
+				r = f.Routes(g.R, "GET,POST", h)
+				f.AutoHead(false)
 			case g.Via == "routes-args":
 				r = f.Routes(g.R, "GET", "POST", h)
 			case g.Via == "routes-lower":
@@ -163,6 +181,12 @@ func checkCase(c Case) (out evid.Outcome) {
 		out.Classes = append(out.Classes, "comma-list-cut-differently")
 	}
 	nogate := func(*model.MRoute, model.Form, http.Header) bool { return true }
+	openHead := false
+	for _, g := range c.Regs {
+		if g.Via == "autohead-routes" {
+			openHead = true
+		}
+	}
 	for pass := 0; pass < 2; pass++ {
 		if pass == 1 {
 			// constraints given (again) after the application has been serving: the
@@ -187,11 +211,18 @@ func checkCase(c Case) (out evid.Outcome) {
 		for _, q := range c.Reqs {
 			routes, ok := compiled[q.M]
 			if !ok {
-				routes = compile(c, q.M)
+				routes = compile(c, q.M, false)
 				compiled[q.M] = routes
 			}
 			hdr := q.Header()
 			want := model.Match(routes, q.P, hdr, nil)
+			var alt *model.Result
+			if q.M == "HEAD" && openHead {
+				// Routes(...) under AutoHead: with or without a HEAD twin - but a twin
+				// is the same route, under the same constraints
+				r2 := model.Match(compile(c, q.M, true), q.P, hdr, nil)
+				alt = &r2
+			}
 			ran, notFound = -1, false
 			rec := httptest.NewRecorder()
 			hreq := q.HTTP()
@@ -230,6 +261,13 @@ func checkCase(c Case) (out evid.Outcome) {
 				if ms := c.Regs[want.Route.Index].methods(); len(ms) > 1 && q.M != ms[0] {
 					out.NonTrivial = true
 					out.Classes = append(out.Classes, "via-other-method")
+				}
+			}
+			if alt != nil && (alt.Found != want.Found || (alt.Found && alt.Route.Index != want.Route.Index)) {
+				out.NonTrivial = true
+				out.Classes = append(out.Classes, "head-of-routes-under-autohead-open")
+				if alt.Found == (ran >= 0) && (ran >= 0) != notFound && (!alt.Found || ran == alt.Route.Index) {
+					continue
 				}
 			}
 			if want.Found != (ran >= 0) || (ran >= 0) == notFound {
@@ -311,7 +349,7 @@ func genHeaders(t *rapid.T) []string {
 }
 
 func genCase(t *rapid.T) Case {
-	vias := []string{"get", "get", "route:POST", "routes-list", "routes-args", "routes-lower", "any", "route:*", "route:get", "autohead-get", "autohead-get-again"}
+	vias := []string{"get", "get", "route:POST", "routes-list", "routes-args", "routes-lower", "any", "route:*", "route:get", "autohead-get", "autohead-get-again", "autohead-routes"}
 	pool := gen.SegPoolW(t, 5, false, [3]int{50, 70, 88})
 	n := rapid.IntRange(1, 6).Draw(t, "nroutes")
 	g := model.NewRegistrar()
@@ -321,7 +359,7 @@ func genCase(t *rapid.T) Case {
 		d := gen.Route(t, gen.RouteOpts{SegmentPool: pool, MaxSegs: 3})
 		h := HReg{Via: vias[rapid.IntRange(0, len(vias)-1).Draw(t, "via")], R: d.Source()}
 		ok := true
-		for _, m := range h.methods() {
+		for _, m := range h.reqMethods() {
 			if v, _ := g.Check(m, d); v != model.MustAccept {
 				ok = false
 			}
@@ -329,7 +367,7 @@ func genCase(t *rapid.T) Case {
 		if !ok {
 			continue
 		}
-		for _, m := range h.methods() {
+		for _, m := range h.reqMethods() {
 			g.Add(m, d)
 		}
 		if rapid.IntRange(0, 9).Draw(t, "constrained") < 6 {
@@ -339,7 +377,7 @@ func genCase(t *rapid.T) Case {
 			}
 		}
 		c.Regs = append(c.Regs, h)
-		for _, m := range h.methods() {
+		for _, m := range h.reqMethods() {
 			regs = append(regs, rt.Reg{M: m, R: h.R})
 		}
 	}
@@ -378,11 +416,14 @@ func genCase(t *rapid.T) Case {
 			return []string{"v1", "7", "a", "ab", "Caddy", "x", "12", "b"}[rapid.IntRange(0, 7).Draw(t, label)]
 		}
 		p1, p2, p3 := pc("p1"), pc("p2"), pc("p3")
-		ms := g.methods()
+		ms := g.reqMethods()
 		m := ms[rapid.IntRange(0, len(ms)-1).Draw(t, "shiftm")]
 		path := "/" + strings.Join(gen.Instance(t, rt.Deriv(c.Regs[ri].R), false), "/")
-		a := rt.Req{M: m, P: path, H: [][2]string{{last[0], p1 + "," + p2}, {last[2], p3}}}
-		b := rt.Req{M: m, P: path, H: [][2]string{{last[0], p1}, {last[2], p2 + "," + p3}}}
+		// (cut at a comma, or - "712" + "a" against "7" + "12a" - anywhere: side by
+		// side the two requests read the same)
+		sep := []string{",", ",", "", "", " ", ";"}[rapid.IntRange(0, 5).Draw(t, "cutsep")]
+		a := rt.Req{M: m, P: path, H: [][2]string{{last[0], p1 + sep + p2}, {last[2], p3}}}
+		b := rt.Req{M: m, P: path, H: [][2]string{{last[0], p1}, {last[2], p2 + sep + p3}}}
 		if rapid.Bool().Draw(t, "shiftorder") {
 			a, b = b, a
 		}
